@@ -16,13 +16,14 @@ from checks import arithcommon as A
 
 PROOF_MODULES = []
 OBLIGATIONS = [
-    "C36/P_numer_denom_sound.v", "C36/P_numer_denom_refuted.v", "C36/P_handle_minus_sound.v",
-    "C36/P_real_imag_sound.v", "C36/P_pow_number_sound.v", "C36/P_real_imag_trig_rules.v",
-    "C36/P_rewrite_sound.v", "C36/P_rewrite_rules_real.v", "C36/P_trig_to_sqrt_sound.v", "C36/P_conjugate_sound.v",
+    "C36/P_numer_denom_sound_partial.v", "C36/P_numer_denom_int_powers.v", "C36/P_numer_denom_refuted.v",
+    "C36/P_rewrite_rules_sound.v", "C36/P_complex_functions_real.v",
+    "C36/P_conjugate_rules.v", "C36/P_real_imag_rules.v", "C36/P_pow_number_sound.v", "C36/P_trig_to_sqrt_rules.v",
     "C36/P_nonvacuous.v",
 ]
-OWN_FILES = ["C36/RewriteModel.v", "C36/RewriteSpec.v", "C36/NumerDenomProofs.v", "C36/RealImagProofs.v",
-             "C36/RewriteProofs.v", "C36/TrigSqrtProofs.v", "C36/ConjProofs.v"]
+# C36's own Coq files in dependency order (until they are listed in coq/_CoqProject they are compiled here)
+OWN_FILES = ["C36/RewriteModel.v", "C36/RewriteSpec.v", "C36/NumerDenomSpec.v", "C36/NumerDenomProofs.v",
+             "C36/RewriteProofs.v", "C36/ConjProofs.v", "C36/RealImagProofs.v", "C36/TrigSqrtProofs.v"]
 SHARED_DEPS = ["Base/Prelude.vo", "Base/Word64.vo", "Num/NumDefs.vo", "Num/NumModel.vo", "Gen/TypeCodes.vo",
                "Expr/ExprDefs.vo", "Expr/Hash.vo", "Expr/Cmp.vo", "Expr/Arith.vo", "Expr/IO.vo"]
 
